@@ -147,6 +147,43 @@ def check_assignment(tkey, assignments, contexts=("synth", "project")):
     return vs, C.h8(b)
 
 
+def second_generation(tkey, oname):
+    """set v1 -> save/load -> set v2 ON THE LOADED module -> save/load: reads v2, every other option unchanged
+    (a writer that merges into bytes remembered from the load would keep stale bits)."""
+    import rv.api as rv
+
+    t = spec.types()[tkey]
+    o = next(x for x in t.options if x.name == oname)
+    vs = []
+    n = 0
+    vals = values_of(o)
+    if len(vals) > 8:                      # 8-bit options: every bit pattern class, not every value pair
+        vals = sorted({0, 1, 2, 0x55, 0xAA, 0x7F, 0x80, 0xFE, 0xFF} & set(vals)) or vals[:8]
+    for v1 in vals:
+        for v2 in vals:
+            if v1 == v2:
+                continue
+            for how in ("load", "clone"):
+                n += 1
+                case = {"type": tkey, "second_generation": [oname, v1, v2, how]}
+                m = cls_of(tkey)()
+                setattr(m, oname, v1)
+                l = C.load_bytes(C.save(rv.Synth(m))).module if how == "load" else m.clone()
+                others = {x.name: int(getattr(l, x.name)) for x in t.options if x.name != oname and x.name not in o.exclusive_of}
+                setattr(l, oname, v2)
+                l2 = C.load_bytes(C.save(rv.Synth(l))).module
+                exp = logical_expected(t, [(oname, v2)])[oname]
+                got = int(getattr(l2, oname))
+                if got != exp:
+                    vs.append(C.viol("edit-of-loaded-option-lost", {"type": tkey, "option": oname, "how": how},
+                                     {"first": v1, "second": v2, "read": got}, case))
+                now = {k: int(getattr(l2, k)) for k in others}
+                if now != others:
+                    vs.append(C.viol("edit-of-loaded-option-changes-others", {"type": tkey, "option": oname, "how": how},
+                                     {"before": others, "after": now}, case))
+    return n, vs
+
+
 def static_disjoint():
     vs = []
     n = 0
@@ -212,6 +249,8 @@ def run_case(case):
         return static_disjoint()[1]
     if case.get("bounded"):
         return bounded_sweep(case["bounded"])[1]
+    if case.get("second_generation"):
+        return second_generation(case["type"], case["second_generation"][0])[1]
     return check_assignment(case["type"], [tuple(a) for a in case["assign"]])[0]
 
 
@@ -270,6 +309,11 @@ def _task(t):
         r["evals"] += n
         C.count(r, "bfs_states", st)
         r["violations"] += vs[:20]
+    elif kind == "secondgen":
+        n, vs = second_generation(t[1], t[2])
+        r["evals"] += n
+        C.count(r, "second_generation", n)
+        r["violations"] += vs[:10]
     elif kind == "bounded":
         n, vs = bounded_sweep(t[1])
         r["evals"] += n
@@ -289,6 +333,7 @@ def run(ctx):
         for o in ty.options:
             nopt += 1
             tasks.append(("pairs", tkey, o.name))
+            tasks.append(("secondgen", tkey, o.name))
         one = [o for o in ty.options if o.size == 1]
         for lo in range(0, max(1, len(one) - 5)):
             tasks.append(("full", tkey, lo))
@@ -307,5 +352,6 @@ def run(ctx):
         "exhaustive": True,
         "option_types": len(opt_types()), "options": nopt, "static_pairs": n,
         "bfs_states": agg.counters.get("bfs_states", 0),
+        "second_generation_edits": agg.counters.get("second_generation", 0),
         "samples": agg.samples,
     }
